@@ -6,6 +6,7 @@ package server
 //
 // input (VERIF_IN):  <id> <now> <users> <phase> ...          users as in the C17 driver
 //   phase = H<uid>.<sid>x<n>[,<uid>.<sid>x<n>...]   n simultaneous connections per (uid, sid) pair
+//         | W<uid>.<sid>                            one more connection of the pair whose reply write FAILS at the server
 //         | E<uid>.<sid>                            the session ends (Session.Close -> serveSession -> CloseSession)
 //         | Aw... | Ad<uid> | K<secs>               as in the C17 driver
 // output (VERIF_OUT): <id> then one observation per phase:
@@ -90,14 +91,30 @@ func vfC15NewRig(dir, id string, now int64, users string) (*vfC15Rig, error) {
 }
 
 // one connection: returns when the client has its key, or the server side has given up on it
+// a server-side connection whose Write fails: the dispatcher cannot send its reply on it
+type vfC15NoWrite struct{ net.Conn }
+
+func (c vfC15NoWrite) Write(p []byte) (int, error) { return 0, io.ErrClosedPipe }
+
 func (r *vfC15Rig) connect(uid int, sid uint32, start chan struct{}, out chan vfC15Res) {
-	cEnd, sEnd := net.Pipe()
+	r.connectX(uid, sid, start, out, false)
+}
+
+func (r *vfC15Rig) connectX(uid int, sid uint32, start chan struct{}, out chan vfC15Res, failWrite bool) {
+	cEnd, sEndRaw := net.Pipe()
+	var sEnd net.Conn = sEndRaw
+	if failWrite {
+		sEnd = vfC15NoWrite{sEndRaw}
+	}
 	srvDone := make(chan struct{})
 	cliDone := make(chan vfC15Res, 1)
 	pair := fmt.Sprintf("%d.%d", uid, sid)
 	go func() {
 		<-start
 		dispatchConnection(sEnd, r.sta)
+		if failWrite {
+			sEndRaw.Close()
+		}
 		close(srvDone)
 	}()
 	go func() {
@@ -233,6 +250,20 @@ func (r *vfC15Rig) phase(ph string) string {
 			parts = append(parts, fmt.Sprintf("%s:a%d:k%s:n%d", name, ans, strings.Join(ks, "+"), p.n-ans))
 		}
 		return fmt.Sprintf("[%s;w%d|%s]", strings.Join(parts, ";"), redirs, r.table())
+	case 'W':
+		// ONE more connection of the pair whose reply cannot be written (a fault on that connection alone):
+		// it is not answered; the session its siblings are in is none of its business
+		us := strings.Split(ph[1:], ".")
+		u, _ := strconv.Atoi(us[0])
+		sd, _ := strconv.Atoi(us[1])
+		start := make(chan struct{})
+		out := make(chan vfC15Res, 1)
+		r.connectX(u, uint32(sd), start, out, true)
+		close(start)
+		x := <-out
+		r.conns = append(r.conns, x.cEnd)
+		r.quiet()
+		return "[|" + r.table() + "]"
 	case 'E':
 		us := strings.Split(ph[1:], ".")
 		u, _ := strconv.Atoi(us[0])
